@@ -1,4 +1,4 @@
 SPECIFICATION Spec
-CONSTANTS Seeds = {1, 2, 3} Damages = {"trunc", "deltok", "duptok", "nasty", "directive", "nest", "many", "funlit", "bytes", "textblock", "unterminated", "none"} Positions = {0, 1, 2, 3, 4} Args = {0, 1, 2, 3, 4, 5, 6, 7} MaxLen = 1 Sim = FALSE
+CONSTANTS Seeds = {1, 2, 3} Damages = {"trunc", "deltok", "duptok", "nasty", "directive", "nest", "many", "funlit", "bytes", "textblock", "unterminated", "anonend", "none"} Positions = {0, 1, 2, 3, 4} Args = {0, 1, 2, 3, 4, 5, 6, 7} MaxLen = 1 Sim = FALSE
 INVARIANT Emit
 CHECK_DEADLOCK FALSE
